@@ -17,5 +17,5 @@ CONSTANTS
   Ops = {"insert", "insert_if_present", "remove", "get", "clear", "set_max"}
   TickOn = FALSE
   MaxNow = 0
-INVARIANTS UsedIsSum Bounded Agree Conservation NeverTwice NothingLost ResidentOwned IndexExact NoOrphan MetricsLaws
+INVARIANTS UsedIsSum Bounded Agree Conservation NeverTwice NothingLost ResidentOwned IndexExact NoOrphan MetricsLaws MetricsCounts NoLoss CondNeverCreates ClearEmpties ChargeFormula
 CHECK_DEADLOCK FALSE
